@@ -74,8 +74,8 @@ class Sweep:
         self.clean = scenario.run_scenarios(self.exe, [c.scn for c in self.cases], timeout_each=20)
         for c in self.cases: res.count("case-" + c.label.split(":")[0] + "-" + c.fmt)
         res.evaluations += len(self.cases)
-        self.fault_per_kind = fault_per_kind if fault_per_kind is not None else (2 if q else 12)
-        self.maxfault_cases = maxfault_cases if maxfault_cases is not None else (120 if q else 100000)
+        self.fault_per_kind = fault_per_kind if fault_per_kind is not None else (2 if q else 6)
+        self.maxfault_cases = maxfault_cases if maxfault_cases is not None else (120 if q else 1200)
         self.faulted = None
     def run_faults(self):
         if self.faulted is not None: return self.faulted
